@@ -179,7 +179,11 @@ static Plan gen_merge(const std::string &prop, const std::string &tier, uint64_t
 	for (size_t i = 0; i < U; i++) pool.push_back(kg.key());
 	if (r.chance(1, 3)) pool.push_back(Bytes());	// the empty key
 	int shape = (int)r.below(5);	// 0 random subsets 1 identical 2 disjoint 3 one key shared by all 4 some empty
-	int mode = prop == "C05" ? 0 : (int)r.below(10);	// <6 merge, 6..7 no merge, 8..9 no merge + dupsort
+	int mode = prop == "C05" ? (r.chance(1, 4) ? 6 + (int)r.below(4) : 0) : (int)r.below(10);	// <6 merge, 6..7 no merge, 8..9 no merge + dupsort
+	// C05 without a merge function: "one table holding the merged content" is only defined when no key occurs twice,
+	// so those plans use sources with disjoint key sets
+	bool c05_nomerge = prop == "C05" && mode >= 6;
+	if (c05_nomerge) shape = 2;
 	p.seti("mode", mode < 6 ? (r.chance(1, 6) ? 3 : 0) : mode < 8 ? 1 : 2);	// 0 merge, 1 none, 2 none + dupsort, 3 merge + dupsort
 	int mfunc = r.chance(3, 5) ? MF_UNION : 1 + (int)r.below(MF_N - 1);
 	p.seti("mfunc", mfunc);
@@ -200,7 +204,7 @@ static Plan gen_merge(const std::string &prop, const std::string &tier, uint64_t
 				if (mfunc == MF_UNION) p.op("ent", { std::to_string(s), spec_of(pool[i]), std::to_string(r.chance(1, 20) ? 1 + r.below(300) : 0) });
 				else { Bytes v = "val"; size_t n = r.below(12); for (size_t q = 0; q < n; q++) v.push_back((char)('a' + r.below(3))); if (r.chance(1, 4)) v = kg.value(100); p.op("ent", { std::to_string(s), spec_of(pool[i]), "0", spec_of(v) }); }
 				// a user-defined source may hold the same key more than once (as a merger without merge function does)
-				if (user && r.chance(1, 8)) {
+				if (user && !c05_nomerge && r.chance(1, 8)) {
 					size_t nd = 1 + r.below(3);
 					for (size_t d = 0; d < nd; d++) {
 						Bytes v = "dup"; size_t n = r.below(6); for (size_t q = 0; q < n; q++) v.push_back((char)('a' + r.below(3)));
@@ -380,7 +384,10 @@ static RunResult exec_merge(const Plan &p)
 	}
 	const mtbl_source *msrc = mtbl_merger_source(m);
 
-	if (p.prop == "C05") {
+	if (p.prop == "C05" && mode != 0 && w.shared_keys > 0) {
+		res.unjudged["c05-no-merge-function-with-repeated-keys"]++;	// not generated; a hand-edited plan
+	} else if (p.prop == "C05") {
+		if (mode != 0) res.probes["merger-without-merge-function"]++;
 		Client cl(res, w.merged, msrc, nullptr, "MERGER-");
 		size_t opi = 0;
 		for (auto &o : p.ops) {
